@@ -218,6 +218,95 @@ func (e *env) runEq(line string, t []string) {
 	}
 }
 
+// registry phase: ua.TypeRegistry keys its maps by the string form of the id
+// (typereg.go), so it must treat two ids as one entry exactly when they are the
+// same node.
+type regA struct{ X int }
+type regB struct{ Y int }
+
+// reg <a> <b>: a fresh registry, Register(a, *regA); then New(b), Register(b, *regB), Lookup(*regA)
+func (e *env) runReg(line string, t []string) {
+	a, ok1 := parseParts(t[1:6])
+	b, ok2 := parseParts(t[6:])
+	if !ok1 || !ok2 || !a.wf() || !b.wf() {
+		e.r.InfraError = "malformed case (reg needs two well-formed ids): " + line
+		return
+	}
+	na, nb := a.node(), b.node()
+	var hit, clash, back string
+	res := h.Catch(func() string {
+		reg := ua.NewTypeRegistry()
+		if err := reg.Register(na, &regA{}); err != nil {
+			return "register-fails"
+		}
+		hit = "miss"
+		if v := reg.New(nb); v != nil {
+			hit = "hit"
+			if _, ok := v.(*regA); !ok {
+				hit = "hit-wrong-type"
+			}
+		}
+		// the same id under another type is refused, another id is accepted
+		clash = "accepted"
+		if err := reg.Register(nb, &regB{}); err != nil {
+			clash = "refused"
+		}
+		back = "lost"
+		if id := reg.Lookup(&regA{}); id != nil && sameNode(partsOf(id), a) {
+			back = "found"
+		}
+		return hit
+	})
+	same := sameNode(a, b)
+	e.r.Count(line, true)
+	e.r.Hit(fmt.Sprintf("reg:same=%v", same))
+	if same && a.mask&0xf != b.mask&0xf {
+		e.r.Hit("reg:same-node-other-numeric-encoding")
+	}
+	if !same && a.nid == b.nid && a.mask&0xf <= 2 && b.mask&0xf <= 2 {
+		e.r.Hit("reg:same-number-other-namespace")
+	}
+	e.r.Compare(e.d, line, res)
+	// ---- oracle: one entry per node
+	want, wantClash := "miss", "accepted"
+	if same {
+		want, wantClash = "hit", "refused"
+	}
+	switch {
+	case res == "panic" || res == "register-fails":
+		e.r.Fail(line, "", "TypeRegistry "+res)
+	case hit != want:
+		e.r.Fail(line, "", fmt.Sprintf("registered under {%s}: New({%s}) is a %s, same node = %v", a.line(), b.line(), hit, same))
+	case clash != wantClash:
+		e.r.Fail(line, "", fmt.Sprintf("registered under {%s}: Register({%s}, other type) is %s, same node = %v", a.line(), b.line(), clash, same))
+	case back != "found":
+		e.r.Fail(line, "", fmt.Sprintf("Lookup of the type registered under {%s} does not return that node", a.line()))
+	}
+}
+
+// regPair: two numeric ids built to collide if a key drops the namespace or the encoding matters
+func (e *env) regPair() (parts, parts) {
+	enc := func(ns uint16, id uint32) parts {
+		var cands []parts
+		if ns == 0 && id < 256 {
+			cands = append(cands, parts{mask: 0, nid: id})
+		}
+		if ns < 256 && id < 65536 {
+			cands = append(cands, parts{mask: 1, ns: ns, nid: id})
+		}
+		cands = append(cands, parts{mask: 2, ns: ns, nid: id})
+		return cands[e.rnd.Intn(len(cands))]
+	}
+	id := uint32(e.rnd.Pick(0, 1, 255, 256, 884, 886, 65534, 65535, 65536, e.rnd.Intn(70000)))
+	nss := []uint16{0, 0, 1, 2, 2, 255, 256}
+	n1, n2 := nss[e.rnd.Intn(len(nss))], nss[e.rnd.Intn(len(nss))]
+	a, b := enc(n1, id), enc(n2, id)
+	if e.rnd.Chance(15) {
+		b = enc(n2, id^1)
+	}
+	return a, b
+}
+
 func classifyText(s string) string {
 	nsval, idval := "ns=0", s
 	if i := strings.IndexByte(s, ';'); i >= 0 && !strings.HasPrefix(s, "s=") {
@@ -365,6 +454,8 @@ func (e *env) run(line string) {
 		e.runStr(line, t)
 	case len(t) == 11 && t[0] == "eq":
 		e.runEq(line, t)
+	case len(t) == 11 && t[0] == "reg":
+		e.runReg(line, t)
 	case len(t) == 2 && t[0] == "parse":
 		e.runParse(line, t)
 	case len(t) >= 3 && t[0] == "parsex" && (t[2] == "nil" || t[2] == "tbl"):
@@ -656,7 +747,7 @@ func main() {
 	}
 	defer d.Close()
 	e := &env{o, r, d, h.NewRand(o.Seed)}
-	r.Rule = "case = one protocol line. 'str <node>': String() of a NodeID built field by field vs the model, and for well-formed nodes the oracle ParseNodeID(String()) succeeds, is the same node (namespace + identifier, numeric encodings identified, flags ignored) and is Equal. 'eq a b': Equal vs the model and vs the specification's same-node relation. 'parse'/'parsex': ParseNodeID / ParseExpandedNodeID on rendered, mutated and assembled texts (alphabet biased to ; = n s u i g b, digits, CR/LF, arbitrary bytes) vs the model, every field of the result compared. 'nsux': nsu=<uri> form vs ns=<index> form against a namespace table. 'b64d/b64e/guid': the text codecs vs encoding/base64 and ua.NewGUID. Distinct by the whole line; trivial = empty text."
+	r.Rule = "case = one protocol line. 'str <node>': String() of a NodeID built field by field vs the model, and for well-formed nodes the oracle ParseNodeID(String()) succeeds, is the same node (namespace + identifier, numeric encodings identified, flags ignored) and is Equal. 'eq a b': Equal vs the model and vs the specification's same-node relation. 'parse'/'parsex': ParseNodeID / ParseExpandedNodeID on rendered, mutated and assembled texts (alphabet biased to ; = n s u i g b, digits, CR/LF, arbitrary bytes) vs the model, every field of the result compared. 'nsux': nsu=<uri> form vs ns=<index> form against a namespace table. 'reg a b': a fresh ua.TypeRegistry with a type registered under a: New(b) hits, and Register(b, other type) is refused, exactly when a and b are the same node; Lookup returns a. 'b64d/b64e/guid': the text codecs vs encoding/base64 and ua.NewGUID. Distinct by the whole line; trivial = empty text."
 
 	if o.Replay != "" {
 		e.run(strings.Trim(o.Replay, "\""))
@@ -678,6 +769,12 @@ func main() {
 		}
 		q := e.relative(p)
 		e.run("eq " + p.line() + " " + q.line())
+		if i%2 == 0 {
+			e.run("reg " + p.line() + " " + q.line())
+		} else {
+			ra, rb := e.regPair()
+			e.run("reg " + ra.line() + " " + rb.line())
+		}
 		// parse-only: mutated renderings and assembled texts
 		e.run("parse " + hx(e.mutate([]byte(s))))
 		e.run("parse " + hx(e.assembled()))
@@ -750,6 +847,7 @@ func main() {
 	want := []string{"str:twobyte/ns0", "str:fourbyte/ns0", "str:fourbyte/ns+", "str:numeric/ns0", "str:numeric/ns+", "str:string/ns0", "str:string/ns+",
 		"str:guid/ns0", "str:guid/ns+", "str:opaque/ns0", "str:opaque/ns+", "str:invalid-type", "str:not-wellformed", "str:string-ns0-with-semicolon",
 		"eq:same=true", "eq:same=false", "eq:same-node-different-encoding-or-flags",
+		"reg:same=true", "reg:same=false", "reg:same-node-other-numeric-encoding", "reg:same-number-other-namespace",
 		"parse:empty/ok", "parse:ns/i=/ok", "parse:ns/i=/err", "parse:ns/s=/ok", "parse:ns/g=/ok", "parse:ns/g=/err", "parse:ns/b=/ok", "parse:ns/b=/err",
 		"parse:ns/ns=/err", "parse:ns/bare/ok", "parse:other/i=/err", "parse:nsu/i=/err",
 		"xparse:nsu/i=/ok", "xparse:nsu/i=/err", "xparse:nsu/s=/ok", "xparse:ns/i=/ok", "nsux:plain-uri", "nsux:uri-with-reserved-character", "xparse:escaped-uri/ok", "nsux:table-has-case-variant",
